@@ -405,6 +405,7 @@ def in_domain(A, B):
     return True
 
 
+TINY_NZ = True      # switched off by the checks while the known-finding entry FD8 is not merged (see c10.py)
 PLANAR = {"plane", "triangle", "rectangle", "disk", "circle"}
 AXIAL = {"circle", "disk", "cylinder", "plane"}
 BASE_MIX = ["random", "random", "far", "lattice", "lattice", "lattice", "touch", "touch", "same", "rotlat", "shallow", "small"]
@@ -589,6 +590,11 @@ def gen_pair(rng, fn, stream=None):
             mode = rng.choice(["lattice", "random", "random", "random", "random"])
             o = [rng.choice([0.0, 1.0, -2.0]) for _ in range(3)] if mode == "lattice" else [rng.uniform(-5, 5) for _ in range(3)]
             B = gen_prim(rng, kb, mode, o)
+            if TINY_NZ and kb in ("circle", "disk") and rng.random() < 0.3:
+                # a normal with a TINY but non-zero z component (pytransform3d's perpendicular_to_vector switches at 1e-7)
+                th = rng.uniform(0, 2 * math.pi)
+                nz = rng.choice([1e-16, 1e-12, 1e-9, 1e-8, 3e-8, 9e-8, 2e-7, 1e-6]) * rng.choice([-1.0, 1.0])
+                B = dict(B, n=unit([math.cos(th), math.sin(th), nz]))
             A = on_axis_prim(rng, ka, B)
             if A is None:
                 continue
